@@ -14,7 +14,8 @@ formulas and a next operator can be reported with repeated answer sets, e.g.
 The checks therefore compare answer sets as sets wherever the property speaks about which answer sets exist (C04, C06, C12,
 C16 head versions) and keep multiplicities only for C13 (body observers), where no repetition was ever observed.
 """
-import clingo
+import clingo, sys
+EXTRA = sys.argv[1:]
 STEPS = [
     [("rule", [4], [-5]), ("rule", [7], [4]), ("rule", [9], []), ("ext", 11, clingo.TruthValue.False_),
      ("rule", [5], [7, -11]), ("ext", 2, clingo.TruthValue.True_)],
@@ -22,7 +23,7 @@ STEPS = [
      ("rule", [17, 18], [7, -5]), ("rule", [18], [9, -2]), ("rule", [17, 18], [19])],
 ]
 def run(solve_first):
-    ctl = clingo.Control(["0"], message_limit=0, logger=lambda c, m: None)
+    ctl = clingo.Control(["0"] + EXTRA, message_limit=0, logger=lambda c, m: None)
     out = []
     for i, st in enumerate(STEPS):
         with ctl.backend() as b:
